@@ -12,9 +12,11 @@ from harness.framework import Suite
 
 PID = "C02"
 TRANSLATE = True
-READY = False
 LEAN_MODS = ["SwcVerif.Props.C02"]
-THEOREMS = []
+THEOREMS = [
+    "C02.exit_flag_pinned", "C02.consts_pinned", "C02.read_ok_iff", "C02.read_row_count", "C02.read_never_partial", "C02.swallow_truncates",
+    "C02.blank_and_comment_skipped", "C02.data_line_fields", "C02.natOf_append", "C02.float_token_value", "C02.too_few_fields_invalid",
+]
 TRUSTED = ["hand-written recogniser of the SWC line language (Model/SwcText.lean), tested equal to CPython's `re` on generated lines, pinned to the regex strings extracted from io.py (Gen/Consts.lean)"]
 ASSUMPTIONS = ["CPython re / int() / float() / str methods / text decoding / universal newlines", "pandas DataFrame construction from the collected columns"]
 
@@ -335,7 +337,4 @@ LEVEL_TEXT = ("Kernel-checked for every list of lines: the model of parse_swc re
               "line in file order with the tokens' values and the comments in order; an invalid line at any position makes the whole read an error. "
               "The recogniser is tied to the code's regexes (extracted on every run, pinned by a theorem) and compared with CPython's re on generated lines.")
 LEVEL_NOTE = "Trusted: Lean kernel; equality of the hand-written recogniser with CPython's regex engine is tested, not proved; int()/float()/decoding/pandas."
-try:
-    from harness.props._c02_theorems import THEOREMS  # noqa: F401
-except Exception:  # noqa: BLE001
-    pass
+
